@@ -297,6 +297,9 @@ def run_go(ctx, pkg, run, env=None, timeout=900, harness_dirs=None, race=False, 
     res["_out_dir"] = out
     res["_rc"] = p.returncode
     res["_stdout_tail"] = "\n".join(p.stdout.splitlines()[-30:])
+    if p.returncode != 0 and res.get("complete", False) and not res.get("violations"):
+        raise Inconclusive("go test %s failed (rc=%d) although the driver recorded no violation:\n%s" % (
+            tag, p.returncode, "\n".join([l for l in p.stdout.splitlines() if "FAIL" in l or "panic" in l or "deadlock" in l][:8])))
     if not res.get("complete", False):
         # the harness died mid-way (panic on a Cloak goroutine, os.Exit, watchdog): the driver records
         # which scenario was running; whether that is a verdict is the property module's decision
